@@ -220,7 +220,7 @@ def flat_units(doc):
     return out
 
 
-def expected_groups(doc, split, single_file):
+def expected_groups(doc, split, single_file, endnotes=False):
     """Partition of the markers into files: one group per file-producing unit
     (the document itself always produces one), each = (body markers in document
     order, footnote markers in document order, unit).  Nesting follows LaTeX:
@@ -243,7 +243,7 @@ def expected_groups(doc, split, single_file):
             g = parent_group
         b, f = body_markers(u['body'])
         g[0].extend(b)
-        g[1].extend(f)
+        (top if endnotes else g)[1].extend(f)      # (the Text renderer prints every footnote at the end of the DOCUMENT's file)
         stack.append((u['level'], g))
     return groups
 
@@ -317,7 +317,7 @@ def generate(seed, tier):
     bad = rc.choice([None, None, DEFAULT_BAD.replace(' ', ''), ':/', ''])
     cfg = {'split': rc.choice([-10, -2, -1, 0, 0, 1, 1, 2, 2, 3, 3, 4, 5, 6]), 'template': tpl, 'single': single,
            'bad': bad, 'badsub': rc.choice(['-', '-', '_']),
-           'renderer': rc.choice([['HTML5', 'default'], ['HTML5', 'default'], ['HTML5', 'minimal'], ['XHTML', 'default']])}
+           'renderer': rc.choice([['HTML5', 'default'], ['HTML5', 'default'], ['HTML5', 'minimal'], ['XHTML', 'default'], ['Text', 'default']])}
     tpl2, single2 = gen_template(rc)
     other = dict(cfg, split=rc.choice([-10, 0, 1, 2, 3, 5]), template=tpl2, single=single2)
     re_ = R('env')
@@ -473,7 +473,7 @@ def judge(doc, cfg, out, info):
                             'traceback': out.get('traceback', '')[-1000:]}}, None)
     files = out['files']
     per_file = dict((name, markers_of(text)) for name, text in files.items())
-    groups = expected_groups(doc, cfg['split'], cfg['single'])
+    groups = expected_groups(doc, cfg['split'], cfg['single'], endnotes=(cfg['renderer'][0] == 'Text'))
     allm = []
     for g in groups:
         allm.extend(g[0] + g[1])
@@ -510,7 +510,7 @@ def judge(doc, cfg, out, info):
         return ({'sig': 'C13|names|duplicate', 'detail': {'issued': issued}}, None)
     bad = cfg['bad'] if cfg['bad'] is not None else DEFAULT_BAD
     for n in issued:
-        stem = n[:-len('.html')] if n.endswith('.html') else n
+        stem = n[:-len('.html')] if n.endswith('.html') else (n[:-len('.txt')] if n.endswith('.txt') else n)
         lit = re.sub(r'[A-Za-z0-9_-]', '', stem)
         if any(ch in bad for ch in lit):
             return ({'sig': 'C13|names|forbidden-char', 'detail': {'name': n, 'bad': bad}}, None)
@@ -652,7 +652,7 @@ def execute(record):
         info['single_file_template'] = 1
     res['violations'] = viol
     res['probes'] = dict((k, 1) for k in info)
-    groups = expected_groups(doc, cfg['split'], cfg['single'])
+    groups = expected_groups(doc, cfg['split'], cfg['single'], endnotes=(cfg['renderer'][0] == 'Text'))
     res['nontrivial'] = len(groups) >= 3 and any(u['level'] > cfg['split'] for u in _all_units(doc))
     res['sim_time'] = float(abs(env['dclock']))
     res['steps'] = len(settings)
